@@ -74,7 +74,10 @@ class Step:
         out = []
         for q in self.ok_paths():
             for alt in guards.facts_dnf(self.ix, q):
-                out.append((q, frozenset((self.ix.inline(sym.subst(a, self.m)), o) for (a, o) in alt)))
+                alt2 = frozenset((self.ix.inline(sym.subst(a, self.m)), o) for (a, o) in alt)
+                if guards._contradictory(self.ix, alt2):
+                    continue
+                out.append((q, alt2))
         return out
 
     def c(self, v):
